@@ -852,8 +852,8 @@ pub fn norm_block(b: &Blk) -> Blk {
 /// as the left operand of `^` (finding F23) or directly under a type assertion (reads back with
 /// a different shape, same value). `concat_only = true`: a negative number literal as the left
 /// operand of `..` (finding F23b, dense generator only).
-pub fn outside_h2(b: &Blk, concat_only: bool) -> bool {
-    if concat_only { h2_scan(b, 15, false) } else { h2_scan(b, 14, true) }
+pub fn outside_h2(b: &Blk, _concat_only: bool) -> bool {
+    h2_scan(b, 15, false)
 }
 
 fn h2_scan(b: &Blk, operator: usize, cast: bool) -> bool {
